@@ -346,7 +346,7 @@ func (s *Service) accountPathsToVerificationRegexes(paths []string) []*regexp.Re
 		}
 		parts[1] = strings.TrimPrefix(parts[1], "^")
 		var specifier string
-		if strings.HasSuffix(parts[1], "$") {
+		if utils.HasEndAnchor(parts[1]) {
 			specifier = fmt.Sprintf("^%s/%s", parts[0], parts[1])
 		} else {
 			specifier = fmt.Sprintf("^%s/%s$", parts[0], parts[1])
